@@ -155,6 +155,7 @@ def _path(ctx, params):
     n = params.get("n", 1)
     prob = Problem(ctx, W, n, params.get("pattern", ("ff",) * n))
     run = Run(prob)
+    run.jac_buffer = bool(params.get("jac_buffer"))
     cfg, sym = build_cfg(ctx, W, prob, params, run)
     ck_info = None
     if params.get("checkpoint"):
